@@ -370,7 +370,7 @@ type wk struct {
 
 var weights = []wk{{"C", 30}, {"T", 14}, {"Ac", 14}, {"Ap", 8}, {"Ah", 4}, {"N", 10}, {"M", 3}, {"D", 3}, {"R", 3}, {"F", 3},
 	{"X", 2}, {"O", 1}, {"B", 6}, {"K", 2}, {"P", 5},
-	{"LC", 7}, {"LS", 2}, {"Ln", 4}, {"LA", 2}, {"LL", 1}, {"LR", 2}, {"LX", 1}, {"G", 3}, {"U", 1}, {"Y", 3}}
+	{"LC", 7}, {"LS", 2}, {"Ln", 4}, {"LA", 2}, {"LL", 1}, {"LR", 2}, {"LX", 1}, {"G", 3}, {"U", 1}, {"Y", 3}, {"W", 5}}
 
 // scenario scripts: event orders that walk the coordinator through a whole migration / balance /
 // decommission; every step still comes from the PRNG and may be interleaved with random events
@@ -564,6 +564,25 @@ func (g *gen) next1(in *inst, kind string) event {
 		return event{kind, []string{fmt.Sprint(g.pid()), fmt.Sprint(1 + r.Pick(g.m))}}
 	case "F":
 		return event{"F", []string{fmt.Sprint(g.pid())}}
+	case "W":
+		// the concurrently added replica: a registered node that is not a member yet (it will not be ready)
+		pid := g.pid()
+		mem := map[int]bool{}
+		for _, n := range storedInfo(in, pid).RaftNodes {
+			mem[kOf(n)] = true
+		}
+		var cand []int
+		for _, n := range in.coord.VerifState().DataNodes {
+			if !mem[kOf(n)] {
+				cand = append(cand, kOf(n))
+			}
+		}
+		sort.Ints(cand)
+		k := 1 + r.Pick(g.m)
+		if len(cand) > 0 {
+			k = cand[r.Pick(len(cand))]
+		}
+		return event{"W", []string{fmt.Sprint(pid), fmt.Sprint(k), "", ""}}
 	case "X":
 		return event{"X", []string{fmt.Sprint(1 + r.Pick(2))}}
 	case "O":
